@@ -5,7 +5,7 @@ patch="$1"; prop="$2"
 scratch=$(mktemp -d /tmp/mutant.XXXXXX)
 (cd /repo && git ls-files -z | xargs -0 cp --parents -t "$scratch")
 if ! (cd "$scratch" && git apply --unsafe-paths "$patch" 2>/dev/null || patch -p1 -s < "$patch"); then echo "PATCH FAILED"; rm -rf "$scratch"; exit 9; fi
-REPO="$scratch" VERIF_REPLAY_DIR="$scratch/.replay" /verif/bin/govc check "$prop"
+REPO="$scratch" VERIF_REPLAY_DIR="$scratch/.replay" VERIF_EVIDENCE_DIR="$scratch/.evidence" /verif/bin/govc check "$prop"
 code=$?
 rm -rf "$scratch"
 exit $code
